@@ -12,8 +12,11 @@ import (
 	"os"
 	"os/exec"
 	"path/filepath"
+	"runtime"
 	"sort"
+	"strconv"
 	"strings"
+	"sync"
 	"syscall"
 	"time"
 
@@ -39,8 +42,22 @@ func main() {
 	hx.Main()
 }
 
-// idle: helper process that is moved between groups; lives until its stdin is closed
+// idle: helper process that is moved between groups; lives until its stdin is closed.
+// It is deliberately multi-threaded before anybody moves it: three extra goroutines are locked
+// to OS threads of their own (plus the threads of the Go runtime); "r" on stdout = threads are up.
 func idleMain([]string) error {
+	var up sync.WaitGroup
+	block := make(chan struct{})
+	for i := 0; i < 3; i++ {
+		up.Add(1)
+		go func() {
+			runtime.LockOSThread()
+			up.Done()
+			<-block
+		}()
+	}
+	up.Wait()
+	os.Stdout.Write([]byte("r"))
 	b := make([]byte, 1)
 	os.Stdin.Read(b)
 	return nil
@@ -59,13 +76,88 @@ func spawnIdle() (*helper, error) {
 	cmd := exec.Command("/proc/self/exe", "idle")
 	cmd.Stdin = r
 	cmd.SysProcAttr = &syscall.SysProcAttr{Pdeathsig: syscall.SIGKILL}
+	ready, err := cmd.StdoutPipe()
+	if err != nil {
+		return nil, err
+	}
 	if err := cmd.Start(); err != nil {
 		r.Close()
 		w.Close()
 		return nil, err
 	}
 	r.Close()
+	if _, err := ready.Read(make([]byte, 1)); err != nil { // its threads are running
+		cmd.Process.Kill()
+		cmd.Wait()
+		w.Close()
+		return nil, fmt.Errorf("helper did not come up: %w", err)
+	}
 	return &helper{cmd, w}, nil
+}
+
+// helpers are started ahead of time by a few goroutines (a Go program needs a moment to come up)
+var (
+	pool     chan *helper
+	poolStop chan struct{}
+	poolWG   sync.WaitGroup
+)
+
+func startPool() {
+	pool = make(chan *helper, 12)
+	poolStop = make(chan struct{})
+	for i := 0; i < 4; i++ {
+		poolWG.Add(1)
+		go func() {
+			defer poolWG.Done()
+			for {
+				select {
+				case <-poolStop:
+					return
+				default:
+				}
+				h, err := spawnIdle()
+				if err != nil {
+					h = nil
+				}
+				select {
+				case pool <- h:
+					if h == nil {
+						return
+					}
+				case <-poolStop:
+					if h != nil {
+						h.stop()
+					}
+					return
+				}
+			}
+		}()
+	}
+}
+
+func getIdle() (*helper, error) {
+	if pool == nil {
+		return spawnIdle()
+	}
+	if h := <-pool; h != nil {
+		return h, nil
+	}
+	return nil, errors.New("cannot start a helper process")
+}
+
+func drainPool() {
+	close(poolStop)
+	poolWG.Wait()
+	for {
+		select {
+		case h := <-pool:
+			if h != nil {
+				h.stop()
+			}
+		default:
+			return
+		}
+	}
 }
 
 func (h *helper) stop() {
@@ -132,15 +224,12 @@ func (l *layout) dirs() map[string][][]string {
 	return out
 }
 
-// where reports the group of pid in every hierarchy, read from /proc/<pid>/cgroup (kernel truth)
-func (l *layout) where(pid int) map[string][]string {
+// place: the group a task is in, per hierarchy, parsed from a /proc/.../cgroup file (kernel truth)
+func (l *layout) place(file string) map[string][]string {
 	out := map[string][]string{}
-	b, err := os.ReadFile(fmt.Sprintf("/proc/%d/cgroup", pid))
+	b, err := os.ReadFile(file)
 	if err != nil {
-		for _, c := range l.ctls {
-			out[c] = []string{"?"}
-		}
-		return out
+		return nil // the task is gone
 	}
 	for _, line := range strings.Split(string(b), "\n") {
 		f := strings.SplitN(line, ":", 3)
@@ -170,6 +259,116 @@ func (l *layout) where(pid int) map[string][]string {
 			default:
 				out[c] = []string{"-"}
 			}
+		}
+	}
+	return out
+}
+
+func tids(pid int) []int {
+	ents, _ := os.ReadDir(fmt.Sprintf("/proc/%d/task", pid))
+	var out []int
+	for _, e := range ents {
+		if t, err := strconv.Atoi(e.Name()); err == nil {
+			out = append(out, t)
+		}
+	}
+	return out
+}
+
+// where reports, per hierarchy, the group of the process (its thread group leader) and the distinct
+// groups of ALL its threads (/proc/<pid>/task/<tid>/cgroup)
+func (l *layout) where(pid int) (leader map[string][]string, threads map[string][][]string) {
+	leader = l.place(fmt.Sprintf("/proc/%d/cgroup", pid))
+	if leader == nil {
+		leader = map[string][]string{}
+		for _, c := range l.ctls {
+			leader[c] = []string{"?"}
+		}
+	}
+	threads = map[string][][]string{}
+	seen := map[string]bool{}
+	for _, t := range tids(pid) {
+		for c, p := range l.place(fmt.Sprintf("/proc/%d/task/%d/cgroup", pid, t)) {
+			k := c + "\x00" + strings.Join(p, "/")
+			if !seen[k] {
+				seen[k] = true
+				threads[c] = append(threads[c], p)
+			}
+		}
+	}
+	for _, c := range l.ctls {
+		if threads[c] == nil {
+			threads[c] = [][]string{}
+		}
+		sort.Slice(threads[c], func(i, j int) bool { return strings.Join(threads[c][i], "/") < strings.Join(threads[c][j], "/") })
+	}
+	return leader, threads
+}
+
+// home: the groups the driver started in, per hierarchy name as in /proc/self/cgroup
+var home = func() map[string]string {
+	m := map[string]string{}
+	b, _ := os.ReadFile("/proc/self/cgroup")
+	for _, line := range strings.Split(string(b), "\n") {
+		f := strings.SplitN(line, ":", 3)
+		if len(f) == 3 {
+			for _, n := range strings.Split(f[1], ",") {
+				m[n] = f[2]
+			}
+		}
+	}
+	return m
+}()
+
+// rescue: if a call moved the driver itself into a group of the case (recorded in the event), it goes
+// back where it came from, so that the limits of the case do not apply to the driver
+func (l *layout) rescue(self map[string][]string) {
+	for _, c := range l.ctls {
+		if p := self[c]; len(p) == 1 && p[0] == "-" {
+			continue
+		}
+		dir := filepath.Join(cgRoot, c, home[c])
+		if l.ver == 2 {
+			dir = filepath.Join(cgRoot, "unified", home[""])
+		}
+		os.WriteFile(filepath.Join(dir, "cgroup.procs"), []byte(strconv.Itoa(os.Getpid())), 0644)
+	}
+}
+
+// tenant: which helpers have at least one task listed in the `tasks` file of a group
+type tenant struct {
+	Ctl  string   `json:"ctl"`
+	Path []string `json:"path"`
+	Who  []string `json:"who"`
+}
+
+func (l *layout) tenants(dirs map[string][][]string, helpers map[string]*helper) []tenant {
+	out := []tenant{}
+	owner := map[int]string{}
+	for n, h := range helpers {
+		for _, t := range tids(h.cmd.Process.Pid) {
+			owner[t] = n
+		}
+	}
+	file := "tasks"
+	if l.ver == 2 {
+		file = "cgroup.threads"
+	}
+	for _, c := range l.ctls {
+		for _, d := range dirs[c] {
+			b, _ := os.ReadFile(filepath.Join(append(append([]string{l.root(c)}, d...), file)...))
+			who := map[string]bool{}
+			for _, f := range strings.Fields(string(b)) {
+				if t, err := strconv.Atoi(f); err == nil && owner[t] != "" {
+					who[owner[t]] = true
+				}
+			}
+			names := []string{}
+			for n := range who {
+				names = append(names, n)
+			}
+			sort.Strings(names)
+			out = append(out, tenant{Ctl: c, Path: append([]string{}, d...), Who: names})
 		}
 	}
 	return out
@@ -230,24 +429,29 @@ type kase struct {
 }
 
 type event struct {
-	Op      string                         `json:"op"`
-	H       int                            `json:"h"`
-	Name    string                         `json:"name"`
-	Names   []string                       `json:"names"`
-	Path    []string                       `json:"path"`
-	Pid     string                         `json:"pid"`
-	Kind    string                         `json:"kind"`
-	Val     string                         `json:"val"`     // decimal
-	G       int                            `json:"g"`       // race: creator
-	Err     bool                           `json:"err"`     // the call returned an error
-	Errs    string                         `json:"errs"`    // its text
-	N       int                            `json:"n"`       // index of the handle the call returned (0 = none)
-	Ex      bool                           `json:"ex"`      // its Existing()
-	Rb      []string                       `json:"rb"`      // set: contents of the limit file(s) read back from cgroupfs
-	Lims    []limit                        `json:"lims"`    // every limit file of every group of the case, read back after the call
-	Allowed map[string]string              `json:"allowed"` // helper -> Cpus_allowed_list (cases with the cpuset controller)
-	Dirs    map[string][][]string          `json:"dirs"`    // group directories after the call
-	Mem     map[string]map[string][]string `json:"mem"`     // hierarchy -> helper -> group after the call
+	Op      string                           `json:"op"`
+	H       int                              `json:"h"`
+	Name    string                           `json:"name"`
+	Names   []string                         `json:"names"`
+	Path    []string                         `json:"path"`
+	Pid     string                           `json:"pid"`
+	Kind    string                           `json:"kind"`
+	Val     string                           `json:"val"`     // decimal
+	G       int                              `json:"g"`       // race: creator
+	Err     bool                             `json:"err"`     // the call returned an error
+	Errs    string                           `json:"errs"`    // its text
+	N       int                              `json:"n"`       // index of the handle the call returned (0 = none)
+	Ex      bool                             `json:"ex"`      // its Existing()
+	Rb      []string                         `json:"rb"`      // set: contents of the limit file(s) read back from cgroupfs
+	Self    map[string][]string              `json:"self"`    // hierarchy -> group of the DRIVER itself (nobody asked to move it)
+	Thr     map[string]map[string][][]string `json:"thr"`     // hierarchy -> helper -> distinct groups of all its threads
+	Ten     []tenant                         `json:"ten"`     // per group: helpers with at least one task in its tasks file
+	Nthr    map[string]int                   `json:"nthr"`    // helper -> number of threads
+	Pcur    []limit                          `json:"pcur"`    // pids.current of every group (cases with the pids controller)
+	Lims    []limit                          `json:"lims"`    // every limit file of every group of the case, read back after the call
+	Allowed map[string]string                `json:"allowed"` // helper -> Cpus_allowed_list (cases with the cpuset controller)
+	Dirs    map[string][][]string            `json:"dirs"`    // group directories after the call
+	Mem     map[string]map[string][]string   `json:"mem"`     // hierarchy -> helper -> group after the call
 }
 
 // limit is the content of one limit file of one group
@@ -337,6 +541,8 @@ func runMain(args []string) error {
 		return err
 	}
 	defer out.Close()
+	startPool()
+	defer drainPool()
 	for _, c := range cases {
 		tr, err := runCase(c, args[2])
 		if err != nil {
@@ -372,7 +578,7 @@ func runCase(c kase, nonce string) (tr *trace, err error) {
 		l.cleanup()
 	}()
 	for _, n := range tr.Pids {
-		h, err := spawnIdle()
+		h, err := getIdle()
 		if err != nil {
 			return nil, err
 		}
@@ -387,14 +593,50 @@ func runCase(c kase, nonce string) (tr *trace, err error) {
 			ev.Allowed[n] = cpusAllowed(h.cmd.Process.Pid)
 		}
 		ev.Mem = map[string]map[string][]string{}
+		ev.Thr = map[string]map[string][][]string{}
 		for _, c := range l.ctls {
 			ev.Mem[c] = map[string][]string{}
+			ev.Thr[c] = map[string][][]string{}
 		}
-		for n, h := range helpers {
-			for c, p := range l.where(h.cmd.Process.Pid) {
-				ev.Mem[c][n] = p
+		ev.Nthr = map[string]int{}
+		ev.Pcur = []limit{}
+		// thread counts and pids.current belong together: repeat until no helper changed its thread count
+		for try := 0; try < 6; try++ {
+			before := map[string]int{}
+			for n, h := range helpers {
+				before[n] = len(tids(h.cmd.Process.Pid))
+			}
+			ev.Pcur = ev.Pcur[:0]
+			for _, c := range l.ctls {
+				if c != "pids" {
+					continue
+				}
+				for _, d := range ev.Dirs[c] {
+					ev.Pcur = append(ev.Pcur, limit{Path: append([]string{}, d...), Kind: "pcur",
+						Val: readTrim(filepath.Join(append(append([]string{l.root(c)}, d...), "pids.current")...))})
+				}
+			}
+			stable := true
+			for n, h := range helpers {
+				ev.Nthr[n] = len(tids(h.cmd.Process.Pid))
+				stable = stable && ev.Nthr[n] == before[n]
+			}
+			if stable {
+				break
 			}
 		}
+		for n, h := range helpers {
+			lead, thr := l.where(h.cmd.Process.Pid)
+			for c, p := range lead {
+				ev.Mem[c][n] = p
+			}
+			for c, ps := range thr {
+				ev.Thr[c][n] = ps
+			}
+		}
+		ev.Ten = l.tenants(ev.Dirs, helpers)
+		ev.Self = l.place("/proc/self/cgroup")
+		l.rescue(ev.Self)
 	}
 	created := func(ev *event, cg cgroup.Cgroup, err error) {
 		ev.Err, ev.Errs = err != nil, errText(err)
